@@ -154,6 +154,194 @@ theorem TInv.init {chain : List Nat} {alive : Nat → Bool} {keys : Nat → List
           rw [hp] at this
           simp [internalize, tget, tlookup, e0, e1, e2, this]
 
+theorem TInv.step {chain : List Nat} {m : Mode} {id : Nat} {alive : Nat → Bool}
+    {keys : Nat → List κ} {K : List κ} {t : List (κ × Ptr)}
+    (inv : TInv chain m id alive keys K t) (k : κ) (hk : k ∉ K) :
+    TInv chain m id alive keys (k :: K) (tableIndex m t k id) := by
+  have hself := tableIndex_self m t k id
+  refine ⟨fun k' hk' => ?_, fun k' hk' => ?_, fun i hi ha k' hk' => ?_⟩
+  · simp only [List.mem_cons, not_or] at hk'
+    rw [tableIndex_ne m t k k' id hk'.1]
+    exact inv.old k' hk'.2
+  · by_cases e : k' = k
+    · subst e
+      refine ⟨?_, ?_⟩
+      · unfold PtrOK; rw [hself]; exact m.extend_sublist id (inv.old k' hk)
+      · rw [hself, Mode.mem_extend]; exact Or.inl rfl
+    · rw [tableIndex_ne m t k k' id e]
+      rcases List.mem_cons.1 hk' with h | h
+      · exact absurd h e
+      · exact inv.new k' h
+  · by_cases e : k' = k
+    · subst e
+      rw [hself, Mode.mem_extend]; exact Or.inr (inv.found i hi ha k' hk')
+    · rw [tableIndex_ne m t k k' id e]; exact inv.found i hi ha k' hk'
+
+theorem TInv.final {chain : List Nat} {m : Mode} {id : Nat} {alive : Nat → Bool}
+    {keys : Nat → List κ} {K : List κ} {t : List (κ × Ptr)}
+    (inv : TInv chain m id alive keys K t) (hK : ∀ k, k ∈ keys id → k ∈ K) :
+    SlotInv (m.extend chain id) alive keys (.table t) := by
+  refine ⟨fun k => ?_, fun i hi ha k hk => ?_, fun p hp => by cases hp⟩
+  · rw [look_table]
+    by_cases h : k ∈ K
+    · exact (inv.new k h).1
+    · exact (inv.old k h).trans (m.sublist_extend chain id)
+  · rw [look_table]
+    rcases (Mode.mem_extend m chain id i).1 hi with h | h
+    · subst h; exact (inv.new k (hK k hk)).2
+    · exact inv.found i h ha k hk
+
+/-- the chain grows by a clause that has no key in this slot. -/
+theorem SlotInv.extend_nokeys {chain : List Nat} {alive : Nat → Bool} {keys : Nat → List κ}
+    {slot : Slot κ} (inv : SlotInv chain alive keys slot) (m : Mode) (id : Nat)
+    (hk : keys id = []) : SlotInv (m.extend chain id) alive keys slot := by
+  refine ⟨fun k => (inv.ptrs k).trans (m.sublist_extend chain id), fun i hi ha k hk' => ?_,
+    fun p hp hpf => ?_⟩
+  · rcases (Mode.mem_extend m chain id i).1 hi with h | h
+    · subst h; simp [hk] at hk'
+    · exact inv.found i h ha k hk'
+  · obtain ⟨k, h⟩ := inv.leafKey p hp hpf
+    refine ⟨k, fun i hi ha => ?_⟩
+    rcases (Mode.mem_extend m chain id i).1 hi with h' | h'
+    · subst h'; exact Or.inl hk
+    · exact h i h' ha
+
+/-- `SlotInv` only looks at the clauses of the chain, and is monotone in `alive`. -/
+theorem SlotInv.congr {chain : List Nat} {alive alive' : Nat → Bool} {keys keys' : Nat → List κ}
+    {slot : Slot κ} (inv : SlotInv chain alive keys slot)
+    (hk : ∀ i, i ∈ chain → keys' i = keys i)
+    (ha : ∀ i, i ∈ chain → alive' i = true → alive i = true) :
+    SlotInv chain alive' keys' slot := by
+  refine ⟨inv.ptrs, fun i hi hal k hk' => ?_, fun p hp hpf => ?_⟩
+  · rw [hk i hi] at hk'; exact inv.found i hi (ha i hi hal) k hk'
+  · obtain ⟨k, h⟩ := inv.leafKey p hp hpf
+    exact ⟨k, fun i hi hal => by rw [hk i hi]; exact h i hi (ha i hi hal)⟩
+
+/-- `index_constant` / `index_structure` for a clause with exactly one key. -/
+theorem SlotInv.indexKey {chain : List Nat} {alive : Nat → Bool} {keys : Nat → List κ}
+    {slot : Slot κ} (inv : SlotInv chain alive keys slot) (m : Mode) (id : Nat) (found : Option κ)
+    (hf : FoundOK chain alive keys found) (k : κ) (hk : keys id = [k]) :
+    SlotInv (m.extend chain id) alive keys (indexKey m found slot k id) := by
+  by_cases hs : slot = .leaf .fail
+  · subst hs
+    show SlotInv (m.extend chain id) alive keys (.leaf (.ext id))
+    have hnone : ∀ i, i ∈ chain → alive i = true → keys i = [] := by
+      intro i hi ha
+      cases hki : keys i with
+      | nil => rfl
+      | cons k' r =>
+        have := inv.found i hi ha k' (by simp [hki])
+        simp [Slot.look, Ptr.ids] at this
+    refine ⟨fun k' => ?_, fun i hi ha k' hk' => ?_, fun p hp hpf => ⟨k, fun i hi ha => ?_⟩⟩
+    · show [id].Sublist (m.extend chain id)
+      simp [Mode.mem_extend]
+    · show i ∈ [id]
+      rcases (Mode.mem_extend m chain id i).1 hi with h | h
+      · simp [h]
+      · simp [hnone i h ha] at hk'
+    · rcases (Mode.mem_extend m chain id i).1 hi with h | h
+      · subst h; exact Or.inr hk
+      · exact Or.inl (hnone i h ha)
+  · rw [indexKey_eq m found slot k id hs]
+    exact ((TInv.init inv m id found hf).step k (by simp)).final (by simp [hk])
+
+/-- `index_constant` followed by `index_overlapping_constant`: a clause with two keys. -/
+theorem SlotInv.indexOverlap {chain : List Nat} {alive : Nat → Bool} {keys : Nat → List κ}
+    {slot : Slot κ} (inv : SlotInv chain alive keys slot) (m : Mode) (id : Nat) (found : Option κ)
+    (hf : FoundOK chain alive keys found) (k k2 : κ) (hk : keys id = [k, k2]) (hne : k2 ≠ k) :
+    SlotInv (m.extend chain id) alive keys
+      (indexOverlap m found (Scryer.Index.indexKey m found slot k id) k k2 id) := by
+  rw [indexOverlap_eq]
+  exact (((TInv.init inv m id found hf).step k (by simp)).step k2 (by simp [hne])).final
+    (by simp [hk])
+
 end tables2
+
+/-! ### merging a clause into a subsequence -/
+
+theorem firstInstFrom_spec (h : Head) (i p : Nat) (hh : firstInstFrom h i = some p) :
+    i ≤ p ∧ h.getD (p - i) .var ≠ .var := by
+  induction h generalizing i with
+  | nil => simp [firstInstFrom] at hh
+  | cons x r ih =>
+    simp only [firstInstFrom] at hh
+    split at hh
+    · have := ih (i + 1) hh
+      refine ⟨by omega, ?_⟩
+      have h2 : p - i = (p - (i + 1)) + 1 := by omega
+      rw [h2]; simpa using this.2
+    · simp at hh; subst hh; simp; assumption
+
+theorem argAt_ne_var (h : Head) (p : Nat) (hh : firstInst h = some p) : argAt h p ≠ .var := by
+  have := (firstInstFrom_spec h 0 p hh).2
+  simpa [argAt] using this
+
+/-- `SubInv` only looks at the clauses of the chain, and is monotone in `alive`. -/
+theorem SubInv.congr {hd hd' : Nat → Head} {alive alive' : Nat → Bool} {sub : Sub}
+    (inv : SubInv hd alive sub) (hh : ∀ i, i ∈ sub.chain → hd' i = hd i)
+    (ha : ∀ i, i ∈ sub.chain → alive' i = true → alive i = true) : SubInv hd' alive' sub := by
+  refine ⟨inv.c.congr (fun i hi => by rw [hh i hi]) ha, inv.s.congr (fun i hi => by rw [hh i hi]) ha,
+    inv.l_ok, fun i hi hal hl => ?_, fun i hi => ?_⟩
+  · rw [hh i hi] at hl; exact inv.l_found i hi (ha i hi hal) hl
+  · rw [hh i hi]; exact inv.arg i hi
+
+theorem SubInv.mono_alive {hd : Nat → Head} {alive alive' : Nat → Bool} {sub : Sub}
+    (inv : SubInv hd alive sub) (ha : ∀ i, alive' i = true → alive i = true) :
+    SubInv hd alive' sub :=
+  inv.congr (fun _ _ => rfl) (fun i _ => ha i)
+
+theorem indexList_ids (m : Mode) (l : Ptr) (id : Nat) :
+    (indexList m l id).ids = m.extend l.ids id := by
+  cases l <;> cases m <;> rfl
+
+/-- **`merge_clause_index` keeps the invariant of the subsequence.** -/
+theorem SubInv.merge {hd : Nat → Head} {alive : Nat → Bool} {sub : Sub} (inv : SubInv hd alive sub)
+    (m : Mode) (foundC : Option CKey) (foundS : Option (String × Nat)) (fa : FirstArg) (id : Nat)
+    (hfa : argAt (hd id) sub.arg = fa) (harg : firstInst (hd id) = some sub.arg)
+    (hC : FoundOK sub.chain alive (fun i => ckeys (argAt (hd i) sub.arg)) foundC)
+    (hS : FoundOK sub.chain alive (fun i => skeys (argAt (hd i) sub.arg)) foundS) :
+    SubInv hd alive (sub.merge m foundC foundS fa id) := by
+  have harg' : ∀ i, i ∈ m.extend sub.chain id → firstInst (hd i) = some sub.arg := by
+    intro i hi
+    rcases (Mode.mem_extend m _ id i).1 hi with h | h
+    · subst h; exact harg
+    · exact inv.arg i h
+  have hlok : PtrOK (m.extend sub.chain id) sub.l := inv.l_ok.trans (m.sublist_extend _ id)
+  have hlf : fa ≠ .list → ∀ i, i ∈ m.extend sub.chain id → alive i = true →
+      argAt (hd i) sub.arg = .list → i ∈ sub.l.ids := by
+    intro hne i hi ha hl
+    rcases (Mode.mem_extend m _ id i).1 hi with h | h
+    · subst h; rw [hfa] at hl; exact absurd hl hne
+    · exact inv.l_found i h ha hl
+  cases fa with
+  | var =>
+    exact ⟨inv.c.extend_nokeys m id (by simp [hfa, ckeys]), inv.s.extend_nokeys m id (by simp [hfa, skeys]),
+      hlok, hlf (by simp), harg'⟩
+  | list =>
+    refine ⟨inv.c.extend_nokeys m id (by simp [hfa, ckeys]),
+      inv.s.extend_nokeys m id (by simp [hfa, skeys]), ?_, ?_, harg'⟩
+    · show (indexList m sub.l id).ids.Sublist (m.extend sub.chain id)
+      rw [indexList_ids]; exact m.extend_sublist id inv.l_ok
+    · intro i hi ha hl
+      show i ∈ (indexList m sub.l id).ids
+      rw [indexList_ids, Mode.mem_extend]
+      rcases (Mode.mem_extend m _ id i).1 hi with h | h
+      · exact Or.inl h
+      · exact Or.inr (inv.l_found i h ha hl)
+  | struct n a =>
+    exact ⟨inv.c.extend_nokeys m id (by simp [hfa, ckeys]),
+      inv.s.indexKey m id foundS hS (n, a) (by simp [hfa, skeys]), hlok, hlf (by simp), harg'⟩
+  | const l =>
+    have hs := inv.s.extend_nokeys m id (show skeys (argAt (hd id) sub.arg) = [] by simp [hfa, skeys])
+    cases hak : l.altKey with
+    | none =>
+      have hc := inv.c.indexKey m id foundC hC l.key (by simp [hfa, ckeys, hak])
+      simp only [Sub.merge, hak]
+      exact ⟨hc, hs, hlok, hlf (by simp), harg'⟩
+    | some k2 =>
+      have hc := inv.c.indexOverlap m id foundC hC l.key k2 (by simp [hfa, ckeys, hak])
+        (altKey_ne_key l k2 hak)
+      simp only [Sub.merge, hak]
+      exact ⟨hc, hs, hlok, hlf (by simp), harg'⟩
 
 end Scryer.Index
